@@ -16,6 +16,8 @@ package flowcontrol
 
 import (
 	"fmt"
+	"sync"
+
 	"github.com/zoumo/golib/lock/maxinflight"
 	"k8s.io/client-go/util/flowcontrol"
 
@@ -138,6 +140,12 @@ func (f *flowControl) MaxInflight() int32 {
 }
 
 type resizeableTokenBucket struct {
+	// lock serializes TryAcquire and Resize. The underlying rate limiter reads the
+	// clock before it takes its own lock; a call that gets that lock with an older
+	// timestamp than its predecessor moves the limiter's clock backwards and the time
+	// in between is refilled twice, so concurrent callers were admitted above qps.
+	// Reading the clock under this lock keeps the timestamps in order.
+	lock        sync.Mutex
 	rateLimiter flowcontrol.RateLimiter
 	name        string
 	typ         proxyv1alpha1.FlowControlSchemaType
@@ -150,6 +158,8 @@ func (f *resizeableTokenBucket) Type() proxyv1alpha1.FlowControlSchemaType {
 }
 
 func (f *resizeableTokenBucket) TryAcquire() bool {
+	f.lock.Lock()
+	defer f.lock.Unlock()
 	return f.rateLimiter.TryAccept()
 }
 
@@ -158,6 +168,8 @@ func (f *resizeableTokenBucket) String() string {
 }
 
 func (f *resizeableTokenBucket) Resize(n uint32, burst uint32) bool {
+	f.lock.Lock()
+	defer f.lock.Unlock()
 	resized := false
 	if f.qps != n || f.burst != burst {
 		f.rateLimiter = flowcontrol.NewTokenBucketRateLimiter(float32(n), int(burst))
